@@ -4,7 +4,7 @@ CONSTANTS
   SHAPES <- T_SHAPES
   RANKS = {1, 2, 4}
   EPSEXP = {10, 6, 3}
-  GUESS = {"none", "fresh", "big", "reused"}
+  GUESS = {"none", "fresh", "big", "reused", "sweep1", "sweep2"}
   SEEDS = {1, 2, 3, 4}
   BACKENDS = {"py"}
   PREC = {}
